@@ -445,7 +445,7 @@ def first_error(genfile, fn, module, linemap, seeds=(0, 1), timeout=600):
     return None
 
 
-def retry_rlimit(genfile, fn, module, linemap, scale=3, timeout=1200):
+def retry_rlimit(genfile, fn, module, linemap, scale=3, timeout=900):
     """A function that exhausted its resource limit is verified again, alone, with `scale` times the limit.
     Returns ('ok', []) if it verifies, ('failed', failures) if the verifier now names failing obligations,
     ('rlimit', []) if it is still out of resources."""
